@@ -145,7 +145,7 @@ func ParseField(v reflect.Value, bytes []byte, params fieldParameters) error {
 			return fmt.Errorf("ENUMERATED without contents")
 		}
 		val, parse_err := parseInt64(bytes[talOff:])
-		if err != nil {
+		if parse_err != nil {
 			return parse_err
 		}
 
@@ -162,7 +162,7 @@ func ParseField(v reflect.Value, bytes []byte, params fieldParameters) error {
 		if len(bytes) <= talOff {
 			return fmt.Errorf("BOOLEAN without contents")
 		}
-		if parsedBool, parse_err := parseBool(bytes[talOff]); err != nil {
+		if parsedBool, parse_err := parseBool(bytes[talOff]); parse_err != nil {
 			return parse_err
 		} else {
 			val.SetBool(parsedBool)
@@ -172,7 +172,7 @@ func ParseField(v reflect.Value, bytes []byte, params fieldParameters) error {
 		if len(bytes) <= talOff {
 			return fmt.Errorf("INTEGER without contents")
 		}
-		if parsedInt, parse_err := parseInt64(bytes[talOff:]); err != nil {
+		if parsedInt, parse_err := parseInt64(bytes[talOff:]); parse_err != nil {
 			return parse_err
 		} else {
 			parsedInt = signExtend(parsedInt, len(bytes[talOff:]))
